@@ -19,6 +19,7 @@ typedef struct tctx {
     int table_kind; uint64_t digest; uint64_t opcount[OP_N]; uint64_t model_mismatch; char first_mismatch[256];
     ival* iv; int niv;
     uint64_t odd_clocks, decodes_without_lang_out;
+    volatile int cur_op;          /* operation in progress (-1: none): read by the watchdog's hang probe only */
 } tctx;
 static uint64_t g_clk;
 static pthread_barrier_t g_bar;
@@ -44,6 +45,7 @@ static void* worker(void* p) {
         if ((op == OP_ENCODE || op == OP_STORE || op == OP_CRYPT || op == OP_KEYGEN || op == OP_GETTERS || op == OP_FREE) && !S[sl]) op = OP_CREATE;
         if ((op == OP_CREATE || op == OP_DECODE || op == OP_EXPLICIT || op == OP_LOAD) && S[sl]) { uint64_t c0 = tick(); polyseed_free(S[sl]); uint64_t r0 = tick(); S[sl] = NULL; if (c->iv) c->iv[c->niv++] = (ival){ OP_FREE, c0, r0 }; c->opcount[OP_FREE]++; }
         uint64_t tc = tick();
+        c->cur_op = (int)op;
         pv_cur.api = OPN[op];            /* thread-local: lets the crash handler attribute a fault to the library call in progress */
         switch (op) {
         case OP_CREATE: {
@@ -98,7 +100,7 @@ static void* worker(void* p) {
         case OP_GETTERS: T = pv_mix(T, polyseed_get_birthday(S[sl]) ^ polyseed_get_feature(S[sl], 7) ^ ((uint64_t)polyseed_is_encrypted(S[sl]) << 40)); break;
         case OP_FREE: polyseed_free(S[sl]); S[sl] = NULL; break;
         }
-        pv_cur.api = NULL;
+        pv_cur.api = NULL; c->cur_op = -1;
         uint64_t tr = tick();
         if (c->iv) c->iv[c->niv++] = (ival){ op, tc, tr };
         c->opcount[op]++;
@@ -124,6 +126,8 @@ static void init(void) {
                     "digest equalled its solo digest in a round where calls of different threads really overlapped; distinct = distinct (script seed, thread, round)");
 }
 
+static tctx* g_workers; static int g_nworkers;
+static const char* hang_probe(void) { for (int t = 0; t < g_nworkers; ++t) { int o = g_workers[t].cur_op; if (o >= 0 && o < OP_N) return OPN[o]; } return NULL; }
 static int cmp_ev(const void* a, const void* b) { const uint64_t* x = a; const uint64_t* y = b; return (x[0] > y[0]) - (x[0] < y[0]); }
 
 static uint64_t n_rounds(void) { return pv_scaled(3, 5) * 2; }
@@ -144,12 +148,13 @@ static void run_rounds(uint64_t idx, pv_rng* rng) {
     /* concurrent execution */
     g_clk = 0;
     pthread_barrier_init(&g_bar, NULL, (unsigned)nt);
+    g_workers = conc; g_nworkers = nt; pv_hang_probe = hang_probe;
     pthread_t th[MAXT];
     /* the concurrent phase comes FIRST: every shard is a fresh process, so anything the library initialises lazily is
      * initialised under contention here */
     for (int t = 0; t < nt; ++t) {
         memset(&solo[t], 0, sizeof solo[t]); solo[t].tid = t; solo[t].script_seed = base + (uint64_t)t * 1315423911u; solo[t].nops = nops; solo[t].concurrent = false; solo[t].table_kind = kind;
-        conc[t] = solo[t]; conc[t].concurrent = true; conc[t].yield_pct = 20; conc[t].yield_seed = base ^ idx; conc[t].digest = 0; conc[t].model_mismatch = 0; conc[t].odd_clocks = 0; conc[t].decodes_without_lang_out = 0;
+        conc[t] = solo[t]; conc[t].concurrent = true; conc[t].yield_pct = 20; conc[t].yield_seed = base ^ idx; conc[t].digest = 0; conc[t].model_mismatch = 0; conc[t].odd_clocks = 0; conc[t].decodes_without_lang_out = 0; conc[t].cur_op = -1; solo[t].cur_op = -1;
         memset(conc[t].opcount, 0, sizeof conc[t].opcount);
         conc[t].iv = malloc(sizeof(ival) * (size_t)(nops * 2 + 8)); conc[t].niv = 0;
         pthread_create(&th[t], NULL, worker, &conc[t]);
@@ -157,7 +162,9 @@ static void run_rounds(uint64_t idx, pv_rng* rng) {
     for (int t = 0; t < nt; ++t) pthread_join(th[t], NULL);
     pthread_barrier_destroy(&g_bar);
     /* solo executions (sequential, same scripts) */
+    g_workers = solo;
     for (int t = 0; t < nt; ++t) { pthread_t th1; pthread_create(&th1, NULL, worker, &solo[t]); pthread_join(th1, NULL); }
+    g_nworkers = 0;
     pv_w = mainw;
     /* offline: overlapping call pairs of different threads by (op,op) type (sweep over the logical clock) */
     size_t total = 0; for (int t = 0; t < nt; ++t) total += (size_t)conc[t].niv;
